@@ -27,7 +27,10 @@ BOUND = ("1-D point sets of refinement trees on 5 intervals [a,b] ([0,1], [-1,3]
          "and GlobalBSplineGrid p in {1,3,5}, boundary on (off and off+modified: runs only). Exactness of the non-trapezoidal rules is "
          "demanded with boundary points only; 'enough points' = the full dyadic level-L tree is contained (all leaves at depth >= L) "
          "with L = p-1 (Lagrange), L = floor(log2 p)+1 (BSpline, the regime of the library's own test); Simpson: order 2 for odd point "
-         "counts; HighOrder: constants and linears only (its order is data dependent)")
+         "counts; HighOrder: constants and linears on every tree, degree <= max_degree m (the default is 5; MAIN_CONFS 1,2,3,5 plus anchor cases m = 4,6,7,8 in quick / 1..8 in thorough) on complete dyadic "
+         "trees of depth D >= ceil((m-1)/2) (quick: D <= 3 on every interval, D = 4 on two, D = 5 for m >= 6 on one; thorough: D <= 5 everywhere), where the unchanged tree reaches it. "
+         "History (round 2; second interval for the small trees, every 25th of the other trees, every 5th random tree, the depth-3 anchors): the grid "
+         "object is used for the mirrored tree (same number of points) first; the Function object is integrated by a GlobalTrapezoidalGrid first")
 RULE = BOUND + ("; one case = (configuration, a, b, points, levels); non-trivial = at least 3 points; tolerances: weights 1e-11*max(b-a, max|w_ref|), "
                 "integrals 1e-10 * int_a^b |x|^k (or * sum |w_i f(x_i)| for the non-polynomial integrand)")
 BUDGET = {"quick": 60.0, "thorough": 800.0}
@@ -40,7 +43,9 @@ CLAUSES = {
     "B.trap.pointset_only": "GlobalTrapezoidalGrid weights do not change when the level array is replaced, when the grid object was used for another grid before, or when compute_weights is called directly (list or ndarray)",
     "B.trap.integrate": "GlobalTrapezoidalGrid.integrate(f) == sum_i wref_i f(x_i) for a non-polynomial f, and == closed form for constants (boundary on / modified) and linear f (boundary on; modified with >= 2 interior points or an arithmetic-midpoint single point)",
     "B.ho.const_linear": "boundary on: Simpson, HighOrder, Lagrange, BSpline integrate 1 and x exactly (nodal rules also through their weights)",
-    "B.ho.order": "boundary on, enough points: Simpson (odd n) degree <= 2, Lagrange degree <= p (all leaves at depth >= p-1), BSpline degree <= p (all leaves at depth >= floor(log2 p)+1)",
+    "B.ho.order": "boundary on, enough points: Simpson (odd n) degree <= 2, Lagrange degree <= p (all leaves at depth >= p-1), BSpline degree <= p (all leaves at depth >= floor(log2 p)+1), HighOrder with max_degree m in 1..8 degree <= m on complete dyadic trees of depth >= ceil((m-1)/2) (equidistant 2^D+1 points; the regime in which the moment-matched weights are non-negative)",
+    "B.history.reuse": "history cases (boundary on and trapezoidal variants): the same grid object is first given another tree with the same number of points (the mirrored tree), then the tree of the case: weights are bitwise those of a fresh object, integrate gives the same result as the fresh object; a second integrate on the same object (grids up to 9 points) gives the same result",
+    "B.history.shared_function": "history cases: the same Function object is integrated by a GlobalTrapezoidalGrid on the same tree first; the rule under test then gives the same integral as with a fresh Function (the exactness clauses are evaluated on the fresh one), and every value in the Function cache equals own evaluation",
 }
 
 S_TRAP = "sparseSpACE.Grid:GlobalTrapezoidalGrid.compute_weights"
@@ -312,6 +317,8 @@ def run_case(ctx, case):
                     good = abs(I[1] - mono_int(1, a0, b0)) <= TOL * amp * mono_abs_int(1, a0, b0)
                     detail += "linear: %r vs %r" % (I[1], mono_int(1, a0, b0))
             ctx.check("B.trap.integrate", good, S_TRAP, tag + "-integrate", detail)
+            if case.get("history") and I.shape == (3,):
+                history_checks(ctx, case, 1, I[:2], w)
         return
 
     if var != "on":
@@ -329,6 +336,11 @@ def run_case(ctx, case):
         order = c["p"]
     if fam == "bspline" and L >= int(math.log2(c["p"])) + 1:
         order = c["p"]
+    if fam == "highorder":
+        D = max(lv)
+        complete = n == 2 ** D + 1 and L == D and bool(np.all(np.abs(np.diff(np.asarray(x, dtype=float)) - (b0 - a0) / (n - 1)) <= 1e-12 * (b0 - a0)))
+        if complete and D >= math.ceil((c["p"] - 1) / 2):
+            order = c["p"]
     F = make_function(order)
     ok, I = attempt(ctx, "B.total", site, tag, lambda: np.asarray(make_and_integrate(c, a, b, pts, lvs, F), dtype=float).ravel())
     if not ok:
@@ -344,6 +356,74 @@ def run_case(ctx, case):
     if order >= 2:
         ctx.check("B.ho.order", bool(np.all(err <= TOL * scale)), site, tag + "-order",
                   "n=%d, min leaf depth %d, order %d: integrate %s, exact %s" % (n, L, order, I, exact))
+    if case.get("history"):
+        history_checks(ctx, case, order, I, w)
+
+
+def points_from_levels(levels, a, b):
+    """points of the dyadic tree whose in-order level sequence is `levels` (own reconstruction: the unique point of level l inside a node is its midpoint)"""
+    pos = [None] * len(levels)
+    pos[0], pos[-1] = a, b
+
+    def rec(lo, hi, s, e, lvl):
+        ms = [m for m in range(lo + 1, hi) if levels[m] == lvl]
+        if not ms:
+            return
+        m = ms[0]
+        pos[m] = 0.5 * (s + e)
+        rec(lo, m, s, pos[m], lvl + 1)
+        rec(m, hi, pos[m], e, lvl + 1)
+    rec(0, len(levels) - 1, a, b, 1)
+    assert all(v is not None for v in pos)
+    return pos
+
+
+def history_checks(ctx, case, order, I_fresh, w_fresh):
+    """object reuse (another tree of the same size first) and Function reuse (a trapezoidal grid integrated the same Function before)"""
+    from sparseSpACE.Grid import GlobalTrapezoidalGrid
+    c, a, b, pts, lvs = case["conf"], case["a"], case["b"], case["points"], case["levels"]
+    tag, site = tag_of(c), SITES[c["family"]]
+    x, lv, a0, b0 = pts[0], lvs[0], a[0], b[0]
+    mlv = list(reversed(lv))
+    mirrored = points_from_levels(mlv, a0, b0)            # the mirrored tree, with arithmetic midpoints (same number of points)
+    out = {}
+
+    def reuse():
+        g = make_grid(c, list(a), list(b))
+        g.set_grid([list(mirrored)], [mlv])
+        g.set_grid([list(x)], [list(lv)])
+        out["w"] = np.asarray(g.weights[0], dtype=float)
+        out["I1"] = np.asarray(g.integrate(make_function(order), [max(lv)], list(a), list(b)), dtype=float).ravel()
+        out["I2"] = out["I1"] if len(x) > 9 else np.asarray(g.integrate(make_function(order), [max(lv)], list(a), list(b)), dtype=float).ravel()
+    ok, _ = attempt(ctx, "B.total", site, tag + "-reuse", reuse)
+    sc = np.array([mono_abs_int(k, a0, b0) for k in range(order + 1)])
+    amp = max(1.0, float(np.sum(np.abs(w_fresh))) / (b0 - a0)) if len(w_fresh) else 1.0
+    if ok:
+        problems = []
+        if out["w"].shape != w_fresh.shape or not np.array_equal(out["w"], w_fresh):
+            problems.append("weights after reuse differ from a fresh object")
+        for nm in ("I1", "I2"):
+            if out[nm].shape != I_fresh.shape or np.any(np.abs(out[nm] - I_fresh) > 1e-13 * amp * sc):
+                problems.append("%s integrate after reuse %s vs fresh %s" % ("first" if nm == "I1" else "second", out[nm], I_fresh))
+        ctx.check("B.history.reuse", not problems, site, tag + "-same-object-other-tree-first", "; ".join(problems))
+
+    def shared():
+        F = make_function(order)
+        t = GlobalTrapezoidalGrid(list(a), list(b), boundary=True)
+        t.set_grid([list(x)], [list(lv)])
+        t.integrate(F, [max(lv)], list(a), list(b))
+        out["Is"] = np.asarray(make_and_integrate(c, a, b, pts, lvs, F), dtype=float).ravel()
+        out["F"] = F
+    ok, _ = attempt(ctx, "B.total", site, tag + "-shared-function", shared)
+    if ok:
+        F = out["F"]
+        keys = list(F.f_dict.keys())
+        cached = np.array([np.asarray(F.f_dict[k], dtype=float).ravel() for k in keys])
+        own = np.array([[float(k[0]) ** j for j in range(order + 1)] for k in keys])
+        okc = cached.shape == own.shape and bool(np.all(np.abs(cached - own) <= 1e-12 * np.maximum(1.0, np.abs(own))))
+        oki = out["Is"].shape == I_fresh.shape and bool(np.all(np.abs(out["Is"] - I_fresh) <= 1e-13 * amp * sc))
+        ctx.check("B.history.shared_function", okc and oki, site, tag + "-after-trapezoidal-same-function",
+                  "cache equals eval: %s; integral with the shared Function %s vs fresh %s" % (okc, out["Is"], I_fresh))
 
 
 def make_and_integrate(c, a, b, pts, lvs, F):
@@ -407,8 +487,8 @@ def run_case_nd(ctx, case, grid):
 
 
 # ------------------------------------------------------------------------------------------- enumeration
-def do_case(ctx, c, a, b, pts, lvs, kind):
-    case = {"conf": c, "a": [float(v) for v in a], "b": [float(v) for v in b], "points": pts, "levels": lvs, "kind": kind}
+def do_case(ctx, c, a, b, pts, lvs, kind, history=False):
+    case = {"conf": c, "a": [float(v) for v in a], "b": [float(v) for v in b], "points": pts, "levels": lvs, "kind": kind, "history": bool(history)}
     ctx.case(case, nontrivial=all(len(p) >= 3 for p in pts))
     run_case(ctx, case)
 
@@ -421,12 +501,31 @@ def run(ctx):
     nI = len(INTERVALS)
     cheap = [c for c in MAIN_CONFS if c["family"] != "highorder"]
     costly = [c for c in MAIN_CONFS if c["family"] == "highorder"]
-    # ---- small trees: every configuration on every interval
-    for (a, b) in INTERVALS:
+    # ---- anchor cases: HighOrder with every max_degree 1..8 (default is 5) on the complete trees of depth 1..4 (quick) / 1..5, every interval;
+    #      quick adds depth 5 (33 points) for the orders 6..8 on one interval
+    for ni, (a, b) in enumerate(INTERVALS):
+        for D in range(1, 5 if quick else 6):
+            n = 2 ** D
+            pts = [a + (b - a) * i / n for i in range(n)] + [b]
+            lvs = [0] + [D - ((i & -i).bit_length() - 1) for i in range(1, n)] + [0]
+            if quick and D == 4 and ni not in (0, 3):
+                continue
+            for m in ((4, 6, 7, 8) if quick else range(1, 9)):      # 1, 2, 3, 5 are part of MAIN_CONFS and meet the complete trees below
+                for split in (True, False):
+                    do_case(ctx, conf("highorder", p=m, split_up=split), [a], [b], [pts], [lvs], "complete", history=(D == 3 and ni == 1))
+    if quick:
+        a, b = INTERVALS[1]
+        pts = [a + (b - a) * i / 32 for i in range(32)] + [b]
+        lvs = [0] + [5 - ((i & -i).bit_length() - 1) for i in range(1, 32)] + [0]
+        for m in (6, 7, 8):
+            for split in (True, False):
+                do_case(ctx, conf("highorder", p=m, split_up=split), [a], [b], [pts], [lvs], "complete")
+    # ---- small trees: every configuration on every interval (history clauses on the second interval)
+    for ni, (a, b) in enumerate(INTERVALS):
         for t in small:
             pts, lvs = tree_grid(t, a, b)
             for c in TRAP_CONFS + MAIN_CONFS + RUN_ONLY_CONFS:
-                do_case(ctx, c, [a], [b], [pts], [lvs], "dyadic")
+                do_case(ctx, c, [a], [b], [pts], [lvs], "dyadic", history=(ni == 1))
     # ---- all 676 trees.  quick: interval rotates with the tree index, HighOrder on every 4th tree, run-only configurations on
     #      every 8th tree; thorough: every interval, every configuration
     for k, t in enumerate(trees):
@@ -444,7 +543,7 @@ def run(ctx):
             if not quick or k % 8 == 0:
                 confs = confs + RUN_ONLY_CONFS
             for c in confs:
-                do_case(ctx, c, [a], [b], [pts], [lvs], "dyadic")
+                do_case(ctx, c, [a], [b], [pts], [lvs], "dyadic", history=(k % 25 == 0 and (a, b) != INTERVALS[2]))
     # ---- seeded random trees
     nrand = 30 if quick else 600
     for r in range(nrand):
@@ -458,7 +557,7 @@ def run(ctx):
         for c in TRAP_CONFS + MAIN_CONFS + (RUN_ONLY_CONFS if r % 3 == 0 else []):
             if mode == "weighted" and c["family"] == "bspline":
                 continue
-            do_case(ctx, c, [a], [b], [pts], [lvs], mode)
+            do_case(ctx, c, [a], [b], [pts], [lvs], mode, history=(r % 5 == 0 and c["family"] != "simpson"))
     # ---- 2-D tensor cases
     n2 = 5 if quick else 40
     for r in range(n2):
